@@ -85,14 +85,20 @@ func LagMixedTrial(p *sut.Proc, flood, size int, addressed bool) (out *LagMixedO
 		must(err)
 		rs = append(rs, r)
 	}
+	d2 := join(a.SID) // second relayer of addressed messages
+	defer d2.Close()
 	t := join(a.SID)
 	defer t.Close()
+	t2 := join(a.SID) // two more members that switch during the stall
+	defer t2.Close()
+	t3 := join(a.SID)
+	defer t3.Close()
 	q := join(a.SID)
 	defer q.Close()
 	outsider := scen.MustDial(p, "")
 	defer outsider.Close()
 	all := []*scen.C{a, b, ps, w, lag}
-	for _, c := range append([]*scen.C{t, q, outsider}, rs...) {
+	for _, c := range append([]*scen.C{d2, t, t2, t3, q, outsider}, rs...) {
 		_, err := c.Barrier()
 		must(err)
 	}
@@ -169,7 +175,7 @@ func LagMixedTrial(p *sut.Proc, flood, size int, addressed bool) (out *LagMixedO
 		must(b.Custom([]byte(fmt.Sprintf("C%07d|", i)), addressees...))
 	}
 	// (a second relayer held up the same way: each holds its own list of addressees)
-	must(ps.Custom([]byte("D0000001|"), addressees...))
+	must(d2.Custom([]byte("D0000001|"), addressees...))
 	time.Sleep(100 * time.Millisecond)
 	gone := 0
 	for _, r := range rs {
@@ -196,6 +202,11 @@ func LagMixedTrial(p *sut.Proc, flood, size int, addressed bool) (out *LagMixedO
 	// a member switches to a session of its own; another one closes
 	tJoin := t.NextReqID()
 	must(t.Send(&hagallpb.ParticipantJoinRequest{Type: d.TJoinReq, Timestamp: d.NewTag(), RequestId: tJoin}))
+	tJoins := map[*scen.C]uint32{t: tJoin}
+	for _, x := range []*scen.C{t2, t3} {
+		tJoins[x] = x.NextReqID()
+		must(x.Send(&hagallpb.ParticipantJoinRequest{Type: d.TJoinReq, Timestamp: d.NewTag(), RequestId: tJoins[x]}))
+	}
 	q.Close()
 	// somebody who has nothing to do with this session creates one of its own:
 	// answered, whatever stalls here (C03)
@@ -325,29 +336,31 @@ func LagMixedTrial(p *sut.Proc, flood, size int, addressed bool) (out *LagMixedO
 	}
 	// the member that switched: answered, and once it is told it is in its new
 	// session nothing of the old one reaches it any more
-	t.Timeout = 30 * time.Second
-	if _, err := t.Barrier(); err != nil {
-		out.Findings = append(out.Findings, lf([]string{"C02", "C08"}, "lag/member-lost", "the member that switched session during the stall: %v", err))
-		return
-	}
-	joined := false
-	for _, e := range t.LogCopy() {
-		if jr, ok := e.M.(*hagallpb.ParticipantJoinResponse); ok && jr.RequestId == tJoin {
-			joined = true
-			continue
-		}
-		if !joined || e.M == nil {
-			continue
-		}
-		switch m := e.M.(type) {
-		case *hagallpb.CustomMessageBroadcast, *hagallpb.EntityAddBroadcast, *hagallpb.EntityUpdatePoseBroadcast, *hagallpb.EntityDeleteBroadcast, *hagallpb.ParticipantLeaveBroadcast, *hagallpb.ParticipantJoinBroadcast:
-			out.Findings = append(out.Findings, lf([]string{"C01", "C02", "C03"}, "relay/reaches-former-member", "a member switched to a session of its own while a relay of its old session was held up by the lagging member; after the answer to its join it was still sent %v (a relay of the session it had left)", m))
+	for _, sw := range []*scen.C{t, t2, t3} {
+		sw.Timeout = 30 * time.Second
+		if _, err := sw.Barrier(); err != nil {
+			out.Findings = append(out.Findings, lf([]string{"C02", "C08"}, "lag/member-lost", "a member that switched session during the stall: %v", err))
 			return
 		}
-	}
-	if !joined {
-		out.Findings = append(out.Findings, lf([]string{"C04", "C07"}, "lag/request-unanswered", "the session switch made during the stall was never answered"))
-		return
+		joined := false
+		for _, e := range sw.LogCopy() {
+			if jr, ok := e.M.(*hagallpb.ParticipantJoinResponse); ok && jr.RequestId == tJoins[sw] {
+				joined = true
+				continue
+			}
+			if !joined || e.M == nil {
+				continue
+			}
+			switch m := e.M.(type) {
+			case *hagallpb.CustomMessageBroadcast, *hagallpb.EntityAddBroadcast, *hagallpb.EntityUpdatePoseBroadcast, *hagallpb.EntityDeleteBroadcast, *hagallpb.ParticipantLeaveBroadcast, *hagallpb.ParticipantJoinBroadcast:
+				out.Findings = append(out.Findings, lf([]string{"C01", "C02", "C03"}, "relay/reaches-former-member", "a member switched to a session of its own while a relay of its old session was held up by the lagging member; after the answer to its join it was still sent %v (a relay of the session it had left)", m))
+				return
+			}
+		}
+		if !joined {
+			out.Findings = append(out.Findings, lf([]string{"C04", "C07"}, "lag/request-unanswered", "a session switch made during the stall was never answered"))
+			return
+		}
 	}
 	// the addressed messages: the lagging member has each exactly once, in order
 	next, got := 1, 0
